@@ -420,6 +420,22 @@ func (fx *FX) callContract(st *State, v ssa.Value, callee *ssa.Function, fc *Fun
 		post.bound[names[0]] = res
 		post.bound["result"] = res
 	}
+	// the ghost position in the random stream: in the callee's clauses rngpos0 is the caller's position before the
+	// call and rngpos the position after it (a callee that may read the stream without saying how far leaves it unknown)
+	mentionsRng := false
+	for _, e := range fc.Ensures {
+		if strings.Contains(e.Src, "rngpos") {
+			mentionsRng = true
+		}
+	}
+	if mentionsRng || fx.u.mayReadRandom(callee, map[*ssa.Function]bool{}) {
+		pre := fx.rngPos
+		after := fx.fresh("rngpos", SInt)
+		fx.assume(tTrue, ge(after, pre))
+		post.bound["rngpos0"] = VInt{pre}
+		post.bound["rngpos"] = VInt{after}
+		fx.rngPos = after
+	}
 	for _, e := range fc.Ensures {
 		gd := and(g, calleeDomain)
 		if d, ok := calleeDomainFor[e.Label]; ok {
@@ -428,6 +444,29 @@ func (fx *FX) callContract(st *State, v ssa.Value, callee *ssa.Function, fc *Fun
 		fx.assume(gd, fx.hypBool(post, e.E))
 	}
 	return res
+}
+
+// mayReadRandom: the function (transitively, through static calls inside the unit) calls crypto/rand.Read.
+func (u *Unit) mayReadRandom(fn *ssa.Function, seen map[*ssa.Function]bool) bool {
+	if fn == nil || seen[fn] {
+		return false
+	}
+	seen[fn] = true
+	for _, b := range fn.Blocks {
+		for _, in := range b.Instrs {
+			if ci, ok := in.(ssa.CallInstruction); ok {
+				if cal := ci.Common().StaticCallee(); cal != nil {
+					if cal.String() == "crypto/rand.Read" {
+						return true
+					}
+					if u.internal(cal) && u.mayReadRandom(cal, seen) {
+						return true
+					}
+				}
+			}
+		}
+	}
+	return false
 }
 
 func (fx *FX) markResultAllocated(st *State, rt types.Type, res Val) {
